@@ -135,6 +135,10 @@ def run_impl(case):
         out["dist"] = float(shapedna.compute_distance(ev, oth))
         out["dist_sym"] = float(shapedna.compute_distance(oth, ev))
         out["dist_self"] = float(shapedna.compute_distance(ev, ev.copy()))
+        # two spectra that differ in the eighth digit are different: the distance is their (small) Euclidean distance, not 0
+        near = ev.copy()
+        near[-1] = near[-1] * (1 + 1e-8) + 1e-300
+        out["dist_near"] = [float(shapedna.compute_distance(ev, near)), float(shapedna.compute_distance(near, ev)), float(abs(near[-1] - ev[-1]))]
     except Exception as e:
         out["error"] = core.errkind(e)
         out["error_msg"] = str(e)[:300]
@@ -235,6 +239,9 @@ def oracle(case, out):
     oth = np.array(case["other"][:k])
     if abs(out["dist"] - np.sqrt(((ev - oth) ** 2).sum())) > 1e-9 * (1 + out["dist"]) or out["dist"] != out["dist_sym"] or out["dist_self"] != 0.0:
         bad("compute_distance_is_euclidean_metric", f"{out['dist']} {out['dist_sym']} {out['dist_self']}")
+    dn = out.get("dist_near")
+    if dn is not None and dn[2] > 0 and (abs(dn[0] - dn[2]) > 1e-6 * dn[2] or dn[0] != dn[1]):
+        bad("compute_distance_is_euclidean_metric", f"nearly equal spectra: {dn[0]} / {dn[1]} instead of {dn[2]}")
     return V
 
 
